@@ -69,6 +69,9 @@ pub struct CCase {
   /// connectables (publish / ref_count / replay over a source term), referenced by the term `conn`
   #[serde(default)]
   pub conn: Vec<crate::seq::ConnCfg>,
+  /// what subscriber 1 must have been delivered at the end ([[kind, value], ...]); only read by the monitors that say so
+  #[serde(default)]
+  pub expect: Vec<(String, i64)>,
 }
 
 pub fn ev(v: serde_json::Value) {
@@ -303,7 +306,7 @@ pub fn run_ccase(case: &CCase, strategy: Strategy, log_locks: bool, budget: u64)
 pub fn trace_of(id: u64, case: &CCase, r: &RunResult) -> (Vec<String>, String) {
   let mut lines = vec![];
   let mut key = String::new();
-  lines.push(json!({"ev": "reset", "id": id, "name": case.name, "root": case.root, "sbj": case.sbj, "tags": case.tags, "nthreads": case.threads.len(), "kind": case.kind, "period": case.period}).to_string());
+  lines.push(json!({"ev": "reset", "id": id, "name": case.name, "root": case.root, "sbj": case.sbj, "tags": case.tags, "nthreads": case.threads.len(), "kind": case.kind, "period": case.period, "expect": case.expect}).to_string());
   for e in r.events.iter() {
     if !e.what.starts_with('{') {
       continue; // spawn / join notes of the runtime
